@@ -815,7 +815,8 @@ witness.add(RS, 'C16.R2w', ['c16_variablerefmut_value', 'c16_variablerefmut_read
 @RS.rule('C16.R5', 'K-PASS', 'a temporary (volatile-scope) variable always lives in the current volatile context: an existing entry is reused in place only if it belongs to that very context')
 def r5(cx):
     F = cx.F
-    b = F.body('yash_env::variable::VariableSet::get_or_new_impl')
+    b = F.inlined(F.body('yash_env::variable::VariableSet::get_or_new_impl'),
+                  lambda callee: callee.startswith('yash_env::variable::VariableSet::') and (F.fns.get(callee) or {}).get('vis') != 'pub')
     cx.fn(b.fn)
     du = Q.DefUse(b)
     lasts = Q.find_calls(b, ['core::slice::<impl [T]>::last'])
